@@ -71,6 +71,7 @@ func vsGenCfg(t *rapid.T) vsPoolCfg {
 		c.PreENIs = append(c.PreENIs, rapid.IntRange(1, c.Cap).Draw(t, "pre4"))
 	}
 	c.Policy = rapid.SampledFrom([]string{"", "most_ips"}).Draw(t, "policy")
+	c.Trunk = npre > 0 && rapid.IntRange(0, 3).Draw(t, "trunk") == 0
 	return c
 }
 
@@ -469,13 +470,7 @@ func c04Run(c *vt.Ctx, s c04Scenario) { c04RunOpt(c, s, false) }
 
 func c04RunOpt(c *vt.Ctx, s c04Scenario, noGuard bool) {
 	cloud := cloudsim.New()
-	for _, n := range s.Cfg.PreENIs {
-		n6 := 0
-		if s.Cfg.V6 {
-			n6 = n
-		}
-		cloud.AddENI("secondary", n, n6)
-	}
+	vsAddPreENIs(cloud, s.Cfg)
 	k := vsNewK8s()
 	dir := vsScratchDir()
 	w, err := vsStart(s.Cfg, cloud, k, dir, dir+"/pod.db")
